@@ -359,4 +359,19 @@ PROPS['C11'].update({
     'level_note': 'Not decidable by contracts here: the C pickler walking the object graph, the id()-keyed class registry in a fresh process, recursion depth.',
 })
 
+PROPS['C12'].update({
+    'units': ['formats.fimi.iter_fimi_rows', 'formats.fimi.dump_file', 'formats.FormatMeta.__getitem__', 'formats.FormatMeta.infer_format',
+              'formats.Format.load', 'formats.Format.loads', 'formats.Format.dump', 'formats.Format.dumps',
+              'contexts.fromstring', 'contexts.fromfile', 'contexts.tostring', 'contexts.tofile'],
+    'level': 'other',
+    'proved_part': 'index-level and plumbing functions only: FIMI rows = ascending indexes of the truthy cells, one line per row; format lookup and suffix inference on the lower-cased name/suffix; '
+                   'load/dump open the file with the format\'s encoding and newline and pass every option on; fromstring/fromfile/tostring/tofile call the right codec with the own triple '
+                   '(the serialized dict form only for python-literal)',
+    'bounded_part': 'the text layer itself: str.partition/strip/split, %-padding, print, io.StringIO newline translation, the C csv module, codecs -- round trips and independent reference '
+                    'readers/writers over the stated table sizes, label alphabets, encodings and dialects',
+    'technique': 'bounded stand-in for the text layer (independent reference readers/writers); contract-based deductive verification of the index helpers and the plumbing',
+    'level_text': 'The text layer is out of reach of the deductive engine (DESIGN section 8); only helpers and plumbing are proved, everything textual is bounded.',
+    'level_note': 'str/csv/codec builtins are not axiomatised; no unbounded claim is made for the round-trip clauses.',
+})
+
 NOT_APPLICABLE = {}
